@@ -42,6 +42,28 @@ class _C06(Spec):
                     for jd in (2440588 + rng.randrange(-20000, 20000), 2456957, rng.randrange(-40_000_000, 40_000_000)):
                         hreqs.append("byname conv %s %s %s %s %d" % (",".join(h), a, b, c, jd))
         sts.append(Stream("byname-histories", hreqs))
+        # configuration-history independence: whole day windows converted under one switch setting, then
+        # under the other, then under the first again, IN ONE PROCESS AND IN THIS ORDER (a group stays on
+        # one worker): state leaking across a switch (a stale cache) shows against the stateless model
+        sw_groups = []
+        windows = [(2453380, 2453520), (2459600, 2459830), (2456900, 2457010), (2121430, 2121460), (3151415, 3151440), (2459280, 2459310)]
+        for (cal, t0, t1) in (("hijri", "M1,A0", "M0,A0"), ("hijri", "M0,A0", "M1,A0"), ("jalali", "M1,A0", "M1,A1"), ("jalali", "M1,A1", "M1,A0")):
+            g = []
+            for hist in (t0, t1, t0, t1):
+                for (lo, hi) in windows:
+                    for jd in range(lo, hi):
+                        g.append("byname conv %s %s gregorian julian %d" % (hist, cal, jd))
+                        if jd % 3 == 0:
+                            g.append("byname conv %s gregorian %s %s %d" % (hist, cal, cal, jd))
+                # literal well-formed dates (independent of JdTo): every day of the years next to the table
+                # ends / cycle ends
+                years = (1425, 1426, 1427, 1442, 1443, 1444, 1445) if cal == "hijri" else (473, 474, 475, 1399, 1400, 3294, 3295)
+                for y in years:
+                    for m in range(1, 13):
+                        for d in range(1, 31):
+                            g.append("byname convraw %s %s gregorian %d %d %d" % (hist, cal, y, m, d))
+            sw_groups.append(g)
+        sts.append(Stream("byname-switch-sweeps", None, groups=sw_groups))
         rreqs = []
         n = 60000 if tier == "quick" else 600000
         for _ in range(n):
